@@ -475,6 +475,58 @@ impl HintingInstance {
             kind
         )
     }
+
+    /// The hinted outline of a `glyf` glyph exactly as `draw` hands it to the
+    /// path conversion: 26.6 point coordinates (bits), on-curve flags, contour
+    /// end points and the four phantom points, for the out-of-tree
+    /// verification harness. Adds no behaviour.
+    #[allow(clippy::type_complexity)]
+    pub fn verif_hinted_points(
+        &self,
+        glyph: &OutlineGlyph,
+        is_pedantic: bool,
+    ) -> Result<
+        (
+            crate::alloc::vec::Vec<(i32, i32, bool)>,
+            crate::alloc::vec::Vec<u16>,
+            [(i32, i32); 4],
+        ),
+        DrawError,
+    > {
+        let ppem = self.size.ppem();
+        let coords = self.coords.as_slice();
+        match (&self.kind, &glyph.kind) {
+            (HinterKind::Glyf(instance), OutlineKind::Glyf(glyf, outline)) => {
+                if !instance.is_compatible(outline) {
+                    return Err(DrawError::NoSources);
+                }
+                super::with_glyf_memory(outline, Hinting::Embedded, None, |buf| {
+                    let scaled_outline = FreeTypeScaler::hinted(
+                        glyf,
+                        outline,
+                        buf,
+                        ppem,
+                        coords,
+                        instance,
+                        is_pedantic,
+                    )?
+                    .scale(&outline.glyph, outline.glyph_id)?;
+                    let points = scaled_outline
+                        .points
+                        .iter()
+                        .zip(scaled_outline.flags.iter())
+                        .map(|(p, f)| (p.x.to_bits(), p.y.to_bits(), f.is_on_curve()))
+                        .collect();
+                    let contours = scaled_outline.contours.to_vec();
+                    let phantom = scaled_outline
+                        .phantom_points
+                        .map(|p| (p.x.to_bits(), p.y.to_bits()));
+                    Ok((points, contours, phantom))
+                })
+            }
+            _ => Err(DrawError::NoSources),
+        }
+    }
 }
 
 #[derive(Clone)]
